@@ -62,9 +62,12 @@ def main(pid):
                 ("exh", dict(universe="ns", target=3, members=1, sample=None if thorough else 300))]
         if not thorough:
             plan.append(("exh", dict(universe="inst", target=40, maxitems=3, sample=1200)))
+    plan.append(("scenario", dict(family="typedefs")))
     for kind, kw in plan:
         if kind == "sim":
             cs, r = cases.simulate(seed=rep.seed, **kw)
+        elif kind == "scenario":
+            cs, r = cases.scenarios(**kw)
         else:
             sample = kw.pop("sample", None)
             cs, r = cases.exhaustive(**kw)
